@@ -1363,7 +1363,7 @@ class Driver:
             return inplace
         raise KeyError(op)
 
-    def make_call(self, g, kindpref=None, fn=None, force=None):
+    def make_call(self, g, kindpref=None, fn=None, force=None, nargs=None):
         """one random call on group g (fn / force: a given overload with given arguments at given positions)"""
         r = self.rng
         fns = g["fns"]
@@ -1394,7 +1394,7 @@ class Driver:
                 break
             nd += 1
         how = kindpref or r.choices(["pos", "neg-count", "neg-type", "neg-range", "fuzz", "const-recv"], [60, 6, 10, 8, 12, 4])[0]
-        n = len(ps) - (0 if force else r.randint(0, nd))
+        n = nargs if nargs is not None else len(ps) - (0 if force else r.randint(0, nd))
         args = []
         for i_, p in enumerate(ps[:n]):
             a = force[i_] if force and i_ in force else self.good_arg(p["type"])
@@ -1404,7 +1404,7 @@ class Driver:
         kw = {}
         op = fns[0].get("operator")
         if how == "pos":
-            if n >= 1 and r.random() < 0.25 and g["kind"] != "op" and not force:
+            if n >= 1 and r.random() < 0.25 and g["kind"] != "op" and not force and nargs is None:
                 # move a tail of the arguments into keyword form (names are the C++ parameter names)
                 cut = r.randint(0, n - 1)
                 for p, a in zip(ps[cut:n], args[cut:]):
@@ -1908,6 +1908,56 @@ class Driver:
                 or self.state(recv.cls, recv.w) != st0:
             self.bad("body-ran-but-raised:foreign-left-operand", cls=q, op=op, trace=[l for _, _, l in ev][:4])
 
+    def do_synth_ne(self):
+        """a class with operator == and no operator != of its own gets != synthesised: a != b must run a == b and negate"""
+        r = self.rng
+        cands = []
+        for c in self.m["classes"]:
+            eqs = [f for f in c["methods"] if f.get("operator") == "=="]
+            if len(eqs) == 1 and not any(f.get("operator") == "!=" for f in c["methods"]) and \
+                    eqs[0]["params"][0]["type"]["k"] == "obj":
+                cands.append((c, eqs[0]))
+        if not cands:
+            return
+        c, f = r.choice(cands)
+        q = c["qname"]
+        recv = self.pick_obj(q, exact=True)
+        other = self.pick_obj(f["params"][0]["type"]["cls"], want_nonconst=True, exact=True)
+        if recv is None or other is None:
+            return
+        self.step(f"synthesised != {q} on iid={recv.iid}")
+        self.trace()
+        self.count("synthesised_ne_calls")
+        self.features.add("synthesised-ne")
+        try:
+            got = recv.w != other.w
+        except Exception as ex:
+            self.bad(f"synthesised-ne-rejected:exc={type(ex).__name__}", cls=q, exc=str(ex)[:120])
+            return
+        pend = self.pending()
+        ev, created, destroyed = self.trace()
+        evs = [fl for eid, fl, l in ev if eid == f["eid"]]
+        if len(evs) != 1 or int(evs[0].get("this", -1)) != recv.iid or evs[0].get("a0") != "o%d" % other.iid:
+            self.bad("synthesised-ne-wrong-body", cls=q, trace=[l for _, _, l in ev][:4])
+            return
+        eq = bool(int(evs[0]["r"][1:]))
+        if got is not (not eq):
+            self.bad("result-mismatch:ret=synthesised-ne", cls=q, eq_result=eq, expected=not eq, got=repr(got)[:40])
+        if pend:
+            self.bad(f"returned-with-exception-set:exc={pend}:synthesised-ne", cls=q)
+
+    def do_const_defaults(self):
+        """functions whose defaults are constant expressions: every omission count, so that each default is the one the
+        C++ compiler computes (the body logs what it received)"""
+        for g in self.groups.values():
+            if g["kind"] == "free" and g["fns"][0].get("feature") == "const-default":
+                f = g["fns"][0]
+                nd = len([p for p in f["params"] if p["default"] is not None])
+                for n in range(len(f["params"]) - nd, len(f["params"]) + 1):
+                    self.count("const_default_calls")
+                    self.features.add("const-default:omitted=%d" % (len(f["params"]) - n))
+                    self.make_call(g, "pos", fn=f, nargs=n)
+
     def do_setitem_const(self, c):
         """obj[i] = v through a const view must raise TypeError, run no body and leave the items alone"""
         q = c["qname"]
@@ -2146,7 +2196,7 @@ class Driver:
             elif x < 0.98:
                 self.do_iadd_const()
             elif x < 0.985:
-                r.choice([self.do_slot_alias, self.do_iter, self.do_reversed])()
+                r.choice([self.do_slot_alias, self.do_iter, self.do_reversed, self.do_synth_ne])()
             else:
                 self.do_coerce_tuple()
         # const views of every item-assignment class are written to at least twice per history
@@ -2162,8 +2212,10 @@ class Driver:
             for _ in range(6):
                 self.do_slot_alias()
                 self.do_reversed()
+                self.do_synth_ne()
             self.do_iter()
             self.do_iter()
+            self.do_const_defaults()
         # every remaining group once more (A, B, A)
         for g in reversed(others):
             if g["kind"] != "ctor":
